@@ -67,7 +67,11 @@ def decide(prop, tier='quick', rlimit=None):
                 cid = f['clause']
             elif f['clause'] and ('/hint_' in f['clause'] or '/prologue' in f['clause'] or '/loop' in f['clause']):
                 # a proof step (hint assertion / loop invariant) that discharged on the reference tree no longer does
-                cid = f"{f['fn']}/contract[{f['clause'].split('/')[-1]}: {f['msg']}]"
+                parts = f['clause'][len(f['fn']) + 1:].split('/') if f['clause'].startswith(f['fn'] + '/') else [f['clause'].split('/')[-1]]
+                if len(parts) >= 2 and parts[-1].startswith('hint_'):
+                    cid = f"{f['fn']}/{parts[0]}[proof step {parts[-1]}: {f['msg']}]"
+                else:
+                    cid = f"{f['fn']}/contract[{'/'.join(parts)}: {f['msg']}]"
             elif f['clause'] and 'precondition' in f['msg']:
                 cid = f"{f['fn']}/safety[callee precondition {f['clause']}]@{f['src']}"
             else:
